@@ -29,9 +29,14 @@ def _orders():
 NUM = r"[1-9][0-9]*"
 
 
-def validate(s, element_counts=None, n_bonds=None, labelled=None):
+def validate(s, element_counts=None, n_bonds=None, labelled=None, bond_elements=None, label_elements=None, atomic_number=None):
     """Return a list of problems (empty = valid).  element_counts: {symbol: count} of the molecule;
-    n_bonds: number of bonds; labelled: number of atoms carrying mass or rad."""
+    n_bonds: number of bonds; labelled: number of atoms carrying mass or rad.
+    "Atom indices run 1..n in blocks of increasing atomic number": with atomic_number ({symbol: Z}, independent of the
+    library), index i denotes the i-th atom of the formula's symbols expanded in order of increasing Z.  Read that way the
+    tuples must join the same element pairs as the molecule's bonds (bond_elements: sorted list of sorted symbol pairs) and
+    the attribute blocks must sit on the same elements with the same values (label_elements: sorted list of
+    (symbol, mass or None, rad or None))."""
     wc, nc, symbols = _orders()
     probs = []
     parts = s.split("/")
@@ -101,4 +106,26 @@ def validate(s, element_counts=None, n_bonds=None, labelled=None):
             probs.append("%d attribute blocks for %d labelled atoms" % (len(bl), labelled))
     elif labelled:
         probs.append("labelled atoms but no attribute part")
+    # ---- blocks of increasing atomic number
+    if atomic_number is not None and not probs and all(a in atomic_number for a in counts):
+        block = [a for a in sorted(counts, key=lambda a: atomic_number[a]) for _ in range(counts[a])]
+        if bond_elements is not None:
+            got = sorted(tuple(sorted((block[a - 1], block[b - 1]))) for a, b in tl)
+            if got != sorted(tuple(sorted(p)) for p in bond_elements):
+                probs.append("indices are not in blocks of increasing atomic number: read that way the tuples join %r, the molecule's bonds join %r"
+                             % (_short(got), _short(sorted(tuple(sorted(p)) for p in bond_elements))))
+        if label_elements is not None:
+            got = []
+            if attrs:
+                for i, body in re.findall(r"\((%s):([a-z=0-9,]+)\)" % NUM, attrs):
+                    kv = dict(p.split("=") for p in body.split(","))
+                    got.append((block[int(i) - 1], int(kv["mass"]) if "mass" in kv else None, int(kv["rad"]) if "rad" in kv else None))
+            key = lambda t: (t[0], t[1] or 0, t[2] or 0)
+            if sorted(got, key=key) != sorted((tuple(x) for x in label_elements), key=key):
+                probs.append("indices are not in blocks of increasing atomic number: read that way the labels sit on %r, in the molecule on %r"
+                             % (_short(sorted(got, key=key)), _short(sorted((tuple(x) for x in label_elements), key=key))))
     return probs
+
+
+def _short(l, k=6):
+    return l if len(l) <= k else l[:k] + ["... %d more" % (len(l) - k)]
